@@ -293,3 +293,12 @@ Proof.
     rewrite <- E2. field. exact H.
   - rewrite E. field. exact H.
 Qed.
+
+(* product rule for one entry of a matrix product: (a + da) . (b + db) = a . b + (da . b + a . db) + da . db;
+   the middle term is the differentiated identity decided on every configuration (C10) *)
+Lemma dotv_vaddv_l a : forall b c, List.length a = List.length b -> dotv (vaddv a b) c == dotv a c + dotv b c.
+Proof. intros b c H. rewrite dotv_comm, dotv_vaddv_r by exact H. rewrite (dotv_comm c a), (dotv_comm c b). reflexivity. Qed.
+Theorem dotv_product_rule (a da b db : vec) :
+  List.length a = List.length da -> List.length b = List.length db ->
+  dotv (vaddv a da) (vaddv b db) == dotv a b + (dotv da b + dotv a db) + dotv da db.
+Proof. intros H1 H2. rewrite dotv_vaddv_l by exact H1. rewrite !dotv_vaddv_r by exact H2. ring. Qed.
